@@ -4,6 +4,7 @@ import Rangers.Model.VrfSha512
 import Rangers.Model.VrfCurve
 import Rangers.Model.Vrf
 import Rangers.Model.Qn
+import Rangers.Model.VrfMsg
 import Rangers.Generated.C16Facts
 /- Line-protocol driver for property C16 (see design/C16.md for the op list). -/
 namespace Rangers.Drive.C16
@@ -34,7 +35,7 @@ def onCurve (pk : Bytes) : Bool := (VrfCurve.fromBytes (VrfCurve.fit 32 pk)).2
 def showVerify (pk : Bytes) (r : Except Vrf.Err Bool) : String :=
   match r with
   | .error _ => "err-decode"
-  | .ok b => if !onCurve pk then "unmodelled" else if b then "true" else "false"
+  | .ok b => if b then "true" else "false"
 
 def step (_ : Unit) (line : String) : Unit × String :=
   let ans : String :=
@@ -42,6 +43,34 @@ def step (_ : Unit) (line : String) : Unit × String :=
     | ["sha512", m] => match ofHex? m with
       | some m => toHex (VrfSha512.sha512 m)
       | none => "bad-op"
+    | ["sha3", m] => match ofHex? m with
+      | some m => toHex (VrfMsg.sha3_256 m)
+      | none => "bad-op"
+    | ["cdelta", ns] => match ns.toInt? with
+      | some ns => match VrfMsg.calDelta ns with
+        | some d => toString d
+        | none => "unmodelled"
+      | none => "bad-op"
+    | ["vmsg", r, d] => match ofHex? r, d.toInt? with
+      | some r, some d => if d > 300 then "bad-op" else toHex (VrfMsg.genVrfMsg r d)
+      | _, _ => "bad-op"
+    | ["vbt", thr, pk, pv, rnd, ns, h, w, t, tq, ptq] =>
+      match thr.toNat?, hexs [pk, pv, rnd], ns.toInt?, h.toNat?, w.toNat?, t.toNat?, tq.toNat?, ptq.toNat? with
+      | some thr, some [pk, pv, rnd], some ns, some h, some w, some t, some tq, some ptq =>
+        if h < Qn.two64 ∧ w < Qn.two64 ∧ t < Qn.two64 ∧ tq < Qn.two64 ∧ ptq < Qn.two64 then
+          match VrfMsg.blockMsg rnd ns with
+          | none => "unmodelled"
+          | some msg =>
+            match Qn.verifyBlockVRF params thr pk (beToNat pv) msg h w t tq ptq with
+            | .verifyErr _ => "err-decode"
+            | .verifyFalse => "false"
+            | .notSatisfy => "not-satisfy"
+            | .qnError => "qn-error"
+            | .panic => "PANIC"
+            | .undefined => "unmodelled"
+            | .ok => "ok"
+        else "bad-op"
+      | _, _, _, _, _, _, _, _ => "bad-op"
     | ["pad", h] => match ofHex? h with
       | some b => toHex (Vrf.tryZeroPadding b) ++ " " ++ toHex (Vrf.tryZeroPadding b)
       | none => "bad-op"
@@ -80,6 +109,16 @@ def step (_ : Unit) (line : String) : Unit × String :=
           toHex (VrfCurve.hashPoints (f a) (f b) (f c) (f d))
         else "bad-op"
       | _ => "bad-op"
+    | ["smul", k, a] => match hexs [k, a] with
+      | some [k, a] =>
+        if k.length = 32 ∧ a.length = 32 then
+          toHex (VrfCurve.encode (VrfCurve.smul (VrfCurve.leToNat k) (VrfCurve.fromBytes a).1))
+        else "bad-op"
+      | _ => "bad-op"
+    | ["slide", k] => match ofHex? k with
+      | some k => if k.length = 32 then
+          String.intercalate "," ((VrfCurve.slide (VrfCurve.leToNat k)).map toString) else "bad-op"
+      | none => "bad-op"
     | ["smulb", k] => match ofHex? k with
       | some k => if k.length = 32 then toHex (VrfCurve.encode (VrfCurve.smulBase (VrfCurve.leToNat k))) else "bad-op"
       | none => "bad-op"
@@ -129,7 +168,6 @@ def step (_ : Unit) (line : String) : Unit × String :=
       match thr.toNat?, hexs [pk, pv, msg], h.toNat?, w.toNat?, t.toNat?, tq.toNat?, ptq.toNat? with
       | some thr, some [pk, pv, msg], some h, some w, some t, some tq, some ptq =>
         if h < Qn.two64 ∧ w < Qn.two64 ∧ t < Qn.two64 ∧ tq < Qn.two64 ∧ ptq < Qn.two64 then
-          if !onCurve pk then "unmodelled" else
           match Qn.verifyBlockVRF params thr pk (beToNat pv) msg h w t tq ptq with
           | .verifyErr _ => "err-decode"
           | .verifyFalse => "false"
